@@ -487,6 +487,7 @@ func main() {
 	files = append(files, genResets(byDir)...)
 	files = append(files, genTypeAddr(byDir)...)
 	files = append(files, genPoolUse(byDir)...)
+	files = append(files, genOptState(byDir)...)
 	files = append(files, genVmShape(repo, byDir)...)
 	changed := []string{}
 	for _, g := range files {
